@@ -15,7 +15,7 @@ import (
 )
 
 func init() {
-	register(&Prop{ID: "C13", Witness: true, N: 20000, Quick: 800,
+	register(&Prop{ID: "C13", Witness: true, N: 20000, Quick: 800, StallSec: 900,
 		Assume: []string{"the reference for a call is the same call on a value compiled freshly for that call (no external oracle)", "the history of a value is driven in one goroutine (concurrent histories belong to C06)"},
 		Rule:   "case = one pattern G(D,i) under the default configuration and under two small-cache configurations (MaxDFAStates 2 and 16); a long-lived Regex and a long-lived meta.Engine receive a history of 36 index-chosen calls (Match, FindIndex, FindSubmatchIndex, FindAllIndex, Count, ReplaceAll, FindAllSubmatchIndex, Engine.FindIndices/IsMatch/Count/FindSubmatch) over the case's haystacks, haystacks of neighbouring cases, cache-churning random walks a 70,000-byte haystack for every 50th case, and for every 8th case an epoch wrap in the middle of the history: cheap calls until the 16-bit generation of the parked backtracker state (read through the verif hook) is back at its value after step 0, then steps 1-16 are replayed under the same generation numbers as their first execution, with runtime.GC() in between; after EVERY call the result is compared with the same call on a fresh value, and every 6th call is repeated; one evaluation = one compared call; distinct_nontrivial = distinct (pattern, config, history position) triples where the fresh value reports a match",
 		Triage: func(f *Failure) string { return "" },
@@ -166,15 +166,26 @@ func runC13(w *W, i uint64) {
 				reached := false
 				if genAfter0 > 0 {
 					obs.Call(func() string {
+						genStart, moved := -1, false
 						for k := 0; k < 140000; k++ {
 							if k%2 == 0 {
 								V.Match(short)
 							} else {
 								V.FindSubmatchIndex(short)
 							}
-							if sz, ok := V.VerifEngine().VerifStateSizes(); ok && sz.Generation == genAfter0 {
+							sz, ok := V.VerifEngine().VerifStateSizes()
+							if ok && sz.Generation == genAfter0 {
 								reached = true
 								break
+							}
+							if ok && genStart < 0 {
+								genStart = sz.Generation
+							}
+							if ok && sz.Generation != genStart {
+								moved = true
+							}
+							if k == 400 && !moved {
+								break // these calls do not use the backtracker state: the counter will never wrap
 							}
 						}
 						return ""
